@@ -127,7 +127,9 @@ class Scenario:
         return dict(global_path=self.groot, local_path=self.lroot, relative_path=self.rel, num_workers=self.workers)
 
     def run(self, crash_at):
-        return crashfs.attempt(self.func, self.kwargs(), crash_at, self.reverse, self.root, self.modules)
+        before = self.local_tree()
+        return crashfs.attempt(self.func, self.kwargs(), crash_at, self.reverse, self.root, self.modules,
+                               restore=lambda: self.restore(before))
 
     def local_tree(self):
         return crashfs.tree(self.lroot_top)
